@@ -75,41 +75,81 @@ def build_ops(tier, full=True):
     return tuple(ops)
 
 
-def do_edit(p, op):
+SEQ_OPS = ("insert", "del", "set", "setslice", "delslice", "append", "extend", "pop", "pop0", "reverse", "iadd", "remove_first", "clear_tail")
+
+
+def seq_edit(t, op, objs):
+    """One operation of the mutable-sequence interface, applied identically to a Pickled or to a plain list (the model)."""
     k = op[0]
     if k == "insert":
-        i = len(p) if op[1] == "end" else (len(p) - 1 if op[1] == "last" else op[1])
-        p.insert(i, sym(op[2]))
+        i = len(t) if op[1] == "end" else (len(t) - 1 if op[1] == "last" else op[1])
+        t.insert(i, objs[0])
     elif k == "del":
         i = op[1]
         if i == "last":
-            i = len(p) - 1
+            i = len(t) - 1
         elif i == "last-1":
-            i = len(p) - 2
-        del p[i]
+            i = len(t) - 2
+        del t[i]
     elif k == "set":
-        p[op[1]] = sym(op[2])
+        t[op[1]] = objs[0]
     elif k == "setslice":
-        p[op[1]:op[2]] = [sym(o) for o in op[3]]
+        t[op[1]:op[2]] = list(objs)
     elif k == "delslice":
-        del p[op[1]:op[2]]
+        del t[op[1]:op[2]]
     elif k == "append":
-        p.append(sym(op[1]))
+        t.append(objs[0])
     elif k == "extend":
-        p.extend([sym(o) for o in op[1]])
+        t.extend(list(objs))
     elif k == "pop":
-        p.pop()
+        t.pop()
     elif k == "pop0":
-        p.pop(0)
+        t.pop(0)
     elif k == "reverse":
-        p.reverse()
+        t.reverse()
     elif k == "iadd":
-        p += [sym(o) for o in op[1]]
+        t += list(objs)
     elif k == "remove_first":
-        p.remove(p[0])
+        t.remove(t[0])
     elif k == "clear_tail":
-        del p[1:]
-    elif k == "insert_python":
+        del t[1:]
+    return t
+
+
+def new_objs(op):
+    k = op[0]
+    if k in ("insert", "set"):
+        return [sym(op[2])]
+    if k == "append":
+        return [sym(op[1])]
+    if k == "setslice":
+        return [sym(o) for o in op[3]]
+    if k in ("extend", "iadd"):
+        return [sym(o) for o in op[1]]
+    return []
+
+
+def do_edit(p, op, model=None):
+    """Apply op to the Pickled (and, for sequence operations, to the reference list). Returns the updated model."""
+    k = op[0]
+    if k in SEQ_OPS:
+        objs = new_objs(op)
+        err_m = None
+        if model is not None:
+            try:
+                model = seq_edit(model, op, objs)
+            except Exception as e:  # noqa: BLE001
+                err_m = type(e).__name__
+        try:
+            seq_edit(p, op, objs)
+        except Exception as e:  # noqa: BLE001
+            if model is not None and err_m != type(e).__name__:
+                raise ModelMismatch(f"{op}: the Pickled raised {type(e).__name__}, a list raises {err_m}")
+            raise
+        if model is not None and err_m is not None:
+            raise ModelMismatch(f"{op}: a list raises {err_m}, the Pickled accepted the operation")
+        return model
+    if k == "insert_python":
         p.insert_python(op[1], run_first=op[2], use_output_as_unpickle_result=op[3])
     elif k == "insert_python_exec":
         p.insert_python_exec(op[1])
@@ -127,8 +167,14 @@ def do_edit(p, op):
             p.dump(_io.BytesIO())
         else:
             views(p, only=op[1])
+        return model
     else:
         raise KeyError(op)
+    return list(p)  # the helpers have no list counterpart: the model is re-synchronised
+
+
+class ModelMismatch(Exception):
+    pass
 
 
 def views(p, only=None):
@@ -166,16 +212,24 @@ class Edits(e2.System):
     def fresh(self):
         import fickling.fickle as fk
 
-        return {"p": fk.Pickled.load(self.base)}, None
+        p = fk.Pickled.load(self.base)
+        return {"p": p, "model": list(p)}, None
 
     def apply(self, ctx, model, op):
         try:
-            do_edit(ctx["p"], op)
+            ctx["model"] = do_edit(ctx["p"], op, ctx["model"])
             obs = None
+        except ModelMismatch as e:
+            obs = ("model-mismatch", str(e))
+            ctx["model"] = list(ctx["p"])
         except RecursionError:
             obs = ("raised", "RecursionError")
+            if op[0] not in SEQ_OPS:
+                ctx["model"] = list(ctx["p"])
         except Exception as e:  # noqa: BLE001
             obs = ("raised", type(e).__name__)
+            if op[0] not in SEQ_OPS:
+                ctx["model"] = list(ctx["p"])  # a helper that fails half way has no list counterpart either
         return model, obs
 
     def check(self, ctx, model, op, obs):
@@ -183,13 +237,20 @@ class Edits(e2.System):
 
         p = ctx["p"]
         ops = list(p)
+        pre = []
+        if obs and obs[0] == "model-mismatch":
+            pre.append((f"C14|sequence-semantics|{op[0]}", obs[1]))
+        elif [id(o) for o in ops] != [id(o) for o in ctx["model"]]:
+            pre.append((f"C14|sequence-semantics|{op[0]}", f"after {op} the opcode sequence differs from what the same operation does to a list "
+                        f"({len(ops)} vs {len(ctx['model'])} opcodes)"))
+            ctx["model"] = list(p)
         try:
             want_dumps = ("ok", b"".join(o.data for o in ops))
         except Exception as e:  # noqa: BLE001
             want_dumps = ("exc", type(e).__name__)
         fresh = fk.Pickled(ops)
         a, b = views(p), views(fresh)
-        probs = []
+        probs = list(pre)
         kind = op[0] if op[0] != "read" else f"read-{op[1]}"
         for name in ("ast", "props", "sev", "dumps"):
             if a[name] != b[name]:
